@@ -3,7 +3,7 @@ CONSTANTS
   Producers <- TrProducers
   PerProducer = 1000000
   Mode <- TrMode
-  MaxAppOps = 0
+  MaxAppOps = 1000000
   Fixes <- TrFixes
   GenHist = FALSE
 POSTCONDITION Reached
